@@ -811,7 +811,9 @@ Definition sub_update_connections (w : world) (s : nat) : res world :=
 
 Inductive rres := RxNone | RxSome (x : sample) | RxErr (e : err).
 
-(* Receiver::receive_from_connection; the guards of both callers exclude ExceedsMaxBorrows here *)
+(* Receiver::receive_from_connection; the guards of both callers exclude ExceedsMaxBorrows here.
+   Ghost: the Sample that Subscriber::receive wraps around the result is recorded here, at once
+   (sample list, receive log), so that every function boundary is a consistent state. *)
 Definition sub_receive_from (w : world) (s key : nat) : world * rres :=
   match sub_conn w s key with
   | None => (w, RxNone)
@@ -821,8 +823,11 @@ Definition sub_receive_from (w : world) (s key : nat) : world * rres :=
     | (c1, RcvOk None) => (w, RxNone)
     | (c1, RcvOk (Some e)) =>
       let w1 := setc w p s c1 in
-      (w1, RxSome {| x_id := w_nsample w; x_sub := s; x_key := key; x_off := q_off e; x_origin := p;
-                     x_idx := q_idx e; x_expect := nth (q_off e) (p_mem (getp w p)) pl0 |})
+      let smp := {| x_id := w_nsample w; x_sub := s; x_key := key; x_off := q_off e; x_origin := p;
+                    x_idx := q_idx e; x_expect := nth (q_off e) (p_mem (getp w p)) pl0 |} in
+      let xs := gets w1 s in
+      let w2 := sets w1 s (s_set_recv xs (s_recv xs ++ [{| rl_pub := p; rl_idx := q_idx e; rl_pl := x_expect smp |}])) in
+      (w_set_samples w2 (w_samples w2 ++ [smp]) (S (w_nsample w2)), RxSome smp)
     end
   end.
 
@@ -886,16 +891,9 @@ Definition sub_receive (w : world) (s : nat) : res (world * rres) :=
   let x := gets w1 s in
   r <- (if Nat.eqb (length (s_tbr x)) 0 then Val (w1, RxNone) else tbr_loop (S (length (s_tbr x))) w1 s 0) ;;
   let '(w2, rr) := r in
-  let '(w3, rr3) := match rr with
-                    | RxNone => active_scan w2 s (length (s_store (gets w2 s))) 0 0 true
-                    | _ => (w2, rr)
-                    end in
-  match rr3 with
-  | RxSome smp =>
-    let xs := gets w3 s in
-    let w4 := sets w3 s (s_set_recv xs (s_recv xs ++ [{| rl_pub := x_origin smp; rl_idx := x_idx smp; rl_pl := x_expect smp |}])) in
-    Val (w_set_samples w4 (w_samples w4 ++ [smp]) (S (w_nsample w4)), rr3)
-  | _ => Val (w3, rr3)
+  match rr with
+  | RxNone => Val (active_scan w2 s (length (s_store (gets w2 s))) 0 0 true)
+  | _ => Val (w2, rr)
   end.
 
 (* Subscriber::has_samples: update_connections; Receiver::has_chunks (every stored connection) *)
@@ -914,7 +912,9 @@ Definition has_samples_of (w : world) (s : nat) : bool := existsb (fun x => Nat.
 Definition sub_maybe_drop_state (w : world) (s : nat) : world :=
   let x := gets w s in
   if negb (s_active x) && s_alive x && negb (has_samples_of w s) then
-    let w1 := sub_detach_all w s (length (s_store x)) 0 in
+    (* the Receiver is dropped: its tables go first (field order), then every stored Connection *)
+    let w0 := sets w s (s_set_tbr (s_set_tab x (map (fun _ => None) (s_tab x))) []) in
+    let w1 := sub_detach_all w0 s (length (s_store x)) 0 in
     sets w1 s (s_set_life (gets w1 s) false false)
   else w.
 
@@ -1259,3 +1259,82 @@ Definition lost_delivery (w0 w1 : world) : nat :=
     let '(p, s, c) := k in
     if sub_live w0 s && sub_live w1 s && c_has_data c && (match getc w1 p s with None => true | Some _ => false end)
     then Nat.max acc (if c_rcv c then 2 else 1) else acc) (w_conns w0) 0.
+
+(* ---------------------------------------------------------------------------------------- *)
+(* the topology part of the world invariant (proofs/PortInv*.v), executable: registries,      *)
+(* subscriber connection storage, samples, publisher tables.  Evaluated by the driver after   *)
+(* every operation next to inv_check.                                                          *)
+(* ---------------------------------------------------------------------------------------- *)
+Definition opt_keys (l : list (option nat)) : list nat :=
+  flat_map (fun e => match e with Some k => [k] | None => [] end) l.
+Definition all_nat (n : nat) (f : nat -> bool) : bool := forallb f (seq 0 n).
+
+Definition sub_topo_b (w : world) (s : nat) : bool :=
+  let x := gets w s in
+  let nst := length (s_store x) in
+  Nat.eqb (length (s_tab x)) (cf_P (w_cfg w))
+  && Nat.leb 1 (s_buf x) && Nat.leb (s_buf x) (cf_B (w_cfg w))
+  && nodup_b (opt_keys (s_tab x))
+  && forallb (fun key => match nth key (s_store x) None with Some _ => true | None => false end) (opt_keys (s_tab x))
+  && nodup_b (s_freekeys x)
+  && forallb (fun key => Nat.ltb key nst && match nth key (s_store x) None with Some _ => false | None => true end) (s_freekeys x)
+  && all_nat nst (fun key => match nth key (s_store x) None with
+       | None => true
+       | Some e =>
+         (negb (p_active (getp w (se_pub e)))
+          || match nth (p_slot (getp w (se_pub e))) (s_tab x) None with Some k => Nat.eqb k key | None => false end)
+         && (negb (mem_off key (s_tbr x)) || negb (p_active (getp w (se_pub e))))
+         && all_nat nst (fun k2 => match nth k2 (s_store x) None with
+                                   | Some e2 => negb (Nat.eqb (se_pub e2) (se_pub e)) || Nat.eqb k2 key
+                                   | None => true end)
+         && match getc w (se_pub e) s with Some c => c_rcv c | None => false end
+       end).
+
+Definition inv_topology_b (w : world) : bool :=
+  let cfg := w_cfg w in
+  (* registries *)
+  Nat.eqb (length (r_slots (w_preg w))) (cf_P cfg) && Nat.eqb (length (r_slots (w_sreg w))) (cf_S cfg)
+  && all_nat (cf_P cfg) (fun i => match nth i (r_slots (w_preg w)) None with
+       | None => true
+       | Some d => let x := getp w (pd_id d) in p_active x && Nat.eqb (p_slot x) i && Nat.eqb (pd_n d) (p_n x) end)
+  && all_nat (length (w_pubs w)) (fun p => let x := getp w p in
+       negb (p_active x) || match nth (p_slot x) (r_slots (w_preg w)) None with
+                            | Some d => Nat.eqb (pd_id d) p | None => false end)
+  && all_nat (cf_S cfg) (fun i => match nth i (r_slots (w_sreg w)) None with
+       | None => true
+       | Some d => let x := gets w (sd_id d) in s_active x && Nat.eqb (s_slot x) i && Nat.eqb (sd_buf d) (s_buf x) && Nat.eqb (sd_hreq d) (s_hreq x) end)
+  && all_nat (length (w_subs w)) (fun s => let x := gets w s in
+       negb (s_active x) || match nth (s_slot x) (r_slots (w_sreg w)) None with
+                            | Some d => Nat.eqb (sd_id d) s | None => false end)
+  (* subscribers *)
+  && all_nat (length (w_subs w)) (fun s => negb (s_alive (gets w s)) || sub_topo_b w s)
+  && all_nat (length (w_subs w)) (fun s => negb (s_active (gets w s)) || s_alive (gets w s))
+  && all_nat (length (w_pubs w)) (fun p => negb (p_active (getp w p)) || p_alive (getp w p))
+  (* samples *)
+  && forallb (fun x => s_alive (gets w (x_sub x))
+                       && (negb (p_active (getp w (x_origin x)))
+                           || match nth (x_key x) (s_store (gets w (x_sub x))) None with
+                              | Some e => Nat.eqb (se_pub e) (x_origin x) | None => false end)
+                       && Nat.ltb (x_id x) (w_nsample w)) (w_samples w)
+  && nodup_b (map x_id (w_samples w))
+  && forallb (fun l => Nat.ltb (l_id l) (w_nloan w)) (w_loans w) && nodup_b (map l_id (w_loans w))
+  (* publisher tables and connections *)
+  && all_nat (length (w_pubs w)) (fun p => let x := getp w p in
+       negb (p_active x)
+       || (nodup_b (map he_off (p_hist x))
+           && forallb (fun o => Nat.ltb o (p_n x)) (map he_off (p_hist x))
+           && forallb (fun o => Nat.ltb o (p_n x)) (loans_of w p)
+           && all_nat (length (p_tab x)) (fun i => match nth i (p_tab x) None with
+                | None => true
+                | Some s => (negb (s_active (gets w s)) || Nat.eqb (s_slot (gets w s)) i)
+                            && match getc w p s with
+                               | Some c => Nat.eqb (c_borrow c) (length (borrowed w p s)) && Nat.eqb (c_n c) (p_n x)
+                               | None => false end
+                end)))
+  && forallb (fun k => let '(p, s, c) := k in
+       negb (p_active (getp w p))
+       || (if c_snd c then mem_off s (opt_keys (p_tab (getp w p)))
+           else negb (s_active (gets w s))
+                || (match c_sub c, c_comp c, c_used c, borrowed w p s with [], [], [], [] => true | _, _, _, _ => false end
+                    && Nat.eqb (c_B c) (Nat.max 1 (s_buf (gets w s))) && Nat.eqb (c_M c) (cf_M cfg)
+                    && Nat.eqb (c_n c) (p_n (getp w p)) && Nat.eqb (c_borrow c) 0))) (w_conns w).
